@@ -45,7 +45,7 @@ COMPONENTS = {
     "real": ["partitura.score (Score, Part, unfold*, iter_all)", "partitura.performance", "exportmusicxml", "exportmidi", "exportmatch", "utils.music (note arrays, pianoroll, transpose)", "musicanalysis estimators", "mido", "lxml"],
     "stub": ["export targets: in-memory file-like objects with injected write/close errors and SimFS paths"],
 }
-PROBES = ("two_clients_mid_iteration", "nested_loop", "partial_loop", "loop_body_calls_entry_point", "repeat_after_other_op", "export_fault_fired", "lazy_generator_interleaved", "op_raised_consistently")
+PROBES = ("result_container_checked", "two_clients_mid_iteration", "nested_loop", "partial_loop", "loop_body_calls_entry_point", "repeat_after_other_op", "export_fault_fired", "lazy_generator_interleaved", "op_raised_consistently")
 
 SEGMENT_SHAPE = "TimePoint.ending_objects[Segment]|TimePoint.starting_objects[Segment]"
 INTERVALS = [(2, "M"), (3, "m"), (5, "P"), (4, "A"), (1, "P")]
@@ -165,7 +165,7 @@ def generate(seed, tier, cfg):
         "perf_seed": st.workload.randrange(1 << 30) if has_perf else None,
         "programs": programs,
         "schedule": sched.gen_schedule(st.schedule, nclients, nsteps, policy),
-        "knobs": {"policy": policy, "reclimit": k.choice((1000, 1500, 3000)), "profile": profile, "chunk": k.choice((0, 0, 7, 16, 512)), "musical_beat": [i for i in range(nparts) if k.random() < 0.5]},
+        "knobs": {"policy": policy, "reclimit": k.choice((1000, 1500, 3000)), "profile": profile, "chunk": k.choice((0, 0, 7, 16, 512)), "musical_beat": [i for i in range(nparts) if k.random() < 0.5], "high_staff_words": [i for i in range(nparts) if k.random() < 0.25]},
     }
 
 
@@ -254,6 +254,20 @@ def make_perf(asc, seed):
     return perf, align
 
 
+def _container_consistent(res, r, k):
+    """a Score returned by the library is a container like any other: len, indexing and iteration agree"""
+    import partitura.score as S
+
+    if not isinstance(r, S.Score):
+        return
+    by_index = [r[i] for i in range(len(r))]
+    by_iter = list(r)
+    if len(by_index) != len(by_iter) or any(a is not b for a, b in zip(by_index, by_iter)) or any(a is not b for a, b in zip(by_index, r.parts)):
+        res.violation("O4-container", k, "the Score returned by %s is not a consistent container: iteration gives %s, indexing gives %s" % (k, [getattr(p, "id", None) for p in by_iter], [getattr(p, "id", None) for p in by_index]), site="result")
+    if res is not None:
+        res.probe("result_container_checked")
+
+
 class World(object):
     def __init__(self, case, res=None, simfs=None):
         import partitura.score as S
@@ -270,6 +284,11 @@ class World(object):
                     p.use_musical_beat()
                 except Exception:
                     pass
+        for i, p in enumerate(self.score.parts):
+            if i in kn.get("high_staff_words", ()):
+                # an unusual but legal part: the highest staff number is only referenced by a text direction
+                top = max([getattr(o, "staff", None) or 1 for o in p.iter_all(S.GenericNote, include_subclasses=True)] + [1])
+                p.add(S.Words("ped. simile", staff=top + 1), p.first_point.t if p.first_point else 0)
         self.perf = None
         self.align = None
         if case.get("perf_seed") is not None:
@@ -382,9 +401,12 @@ def run_atomic(w, op, res, sink=None):
             return tgt.pretty()
         if k == "unfold_max":
             r = S.unfold_part_maximal(tgt, update_ids=op["update_ids"], ignore_leaps=op["ignore_leaps"])
+            _container_consistent(res, r, k)
             return FP.value_fp(r)
         if k == "unfold_min":
-            return FP.value_fp(S.unfold_part_minimal(tgt))
+            r = S.unfold_part_minimal(tgt)
+            _container_consistent(res, r, k)
+            return FP.value_fp(r)
         if k == "get_paths":
             a, b, c = op["flags"]
             return [list(p.path) for p in S.get_paths(tgt, no_repeats=a, all_repeats=b, ignore_leap_info=c)]
@@ -403,6 +425,7 @@ def run_atomic(w, op, res, sink=None):
         if k == "transpose":
             num, qual = INTERVALS[op["interval"]]
             r = M.transpose(tgt, S.Interval(num, qual))
+            _container_consistent(res, r, k)
             return FP.value_fp(r)
         if k == "len_getitem":
             n = len(tgt)
